@@ -234,7 +234,7 @@ PROPS = {
 }
 
 PROPS["C04"] = dict(
-    modules=["HT.Props.C04", "HT.Props.C04Http"],
+    modules=["HT.Props.C04", "HT.Props.C04Http", "HT.Props.C04Redis", "HT.Props.C04HttpOnce"],
     streams=["c04seg"],
     rule="services configured on a real Honeytrap (real Run(): construction, port table, bus, filter -> capture channel), "
          "connections handed to the real handle() (findService, timeout wrapper, recover) over a scripted connection whose "
@@ -301,7 +301,7 @@ PROPS["C09"] = dict(
 )
 
 PROPS["C01"] = dict(
-    modules=["HT.Props.C01"],
+    modules=["HT.Props.C01", "HT.Props.C01Bounds"],
     streams=["c01proc"],
     rule="lab child process = this harness binary running a real Honeytrap (VerifNew) with the real socket listener on "
          "loopback ports, all 25 lab services, the real Run() accept loop; the parent sends scenarios over real sockets: "
@@ -366,7 +366,8 @@ MANIFEST_TEXT = {
              "ending is a return or a panic under a recover the process is alive, has closed every connection and reported "
              "every recovered panic, and one fatal error or one panic outside a recover ends it for good (so the property "
              "reduces to the absence of those, which the lab looks for); the ssh request-payload loop ends for every "
-             "payload (and span for ever before the fix). Tied to the code by a lab child process running the real accept "
+             "payload (and span for ever before the fix); the ipp group loop yields at most one group per input byte for every "
+             "input (C01_ipp_groups_bounded) and the redis parser refuses to descend below its level bound. Tied to the code by a lab child process running the real accept "
              "loop on loopback sockets, checked for survival and service after every scenario, heap sampled while idle, and "
              "by the decoded exec strings of real ssh sessions compared with the model.",
         design_ref="DESIGN.md section 7, C01 and section 11",
@@ -408,13 +409,15 @@ MANIFEST_TEXT = {
              "segments, any cut points - yields the events, state and unconsumed bytes of the stream delivered in one "
              "piece (C04_segmentation_independence, induction over segments and drain steps); the ftp, telnet, memcached, "
              "redis (RESP arrays of any nesting) and smtp (state functions, DATA dot-reader, BDAT) handlers are such "
-             "machines; ftp/telnet/memcached: any command sequence yields exactly one event per command in order with its "
-             "fields (memcached: the first 80 bytes of the value, whatever it contains). Tied to the real services by runs "
+             "machines; ftp/telnet/memcached/redis/http: any command or request sequence yields exactly one event per command in order with its "
+             "fields (memcached: the first 80 bytes of the value, whatever it contains; redis: arrays of bulk strings of any "
+             "length, decimal lengths rendered and re-read by a proved digit round trip). Tied to the real services by runs "
              "through the real dispatcher over every single cut point of generated dialogues.",
         design_ref="DESIGN.md section 7, C04 and section 11",
-        note="Partial: the exactly-once theorems are proved for ftp, telnet and memcached; for redis, smtp and http "
-             "(method, target, first 1024 body bytes) the segmentation theorem is proved and the event list is checked by "
-             "the correspondence and the oracle; http headers/host, dns and snmp datagrams are judged by the oracle only. "
+        note="Partial: the exactly-once theorems are proved for ftp, telnet, memcached, redis and http (method, target, first "
+             "1024 body bytes; any other headers, content-length bodies); for smtp the segmentation theorem is proved and the "
+             "event list is checked by the correspondence and the oracle; http headers/host/chunked bodies, dns and snmp "
+             "datagrams are judged by the oracle only. "
              "Library parsing (textproto, net/mail, net/http) is modelled, not verified.",
         technique="Lean 4 proof (parser-combinator monotonicity, induction over segmentations) + differential correspondence",
     ),
